@@ -35,6 +35,10 @@ func c09Pre(pre int) *stun.Message {
 		return stun.MustBuild(stun.BindingRequest, tid, stun.NewUsername("u"), stun.NewShortTermIntegrity("pw"))
 	case 3:
 		return stun.MustBuild(stun.BindingRequest, tid, stun.NewUsername("u"), stun.Fingerprint)
+	case 5: // FINGERPRINT that is not the last attribute
+		return stun.MustBuild(stun.BindingRequest, tid, stun.NewUsername("u"), stun.Fingerprint, stun.NewSoftware("after"))
+	case 6: // FINGERPRINT first, two attributes after it
+		return stun.MustBuild(stun.BindingRequest, tid, stun.Fingerprint, stun.NewRealm("r"), stun.NewNonce("n"))
 	default:
 		return stun.MustBuild(stun.BindingRequest, tid, stun.NewUsername("abc"), stun.NewRealm("de"), stun.NewNonce("fghij"))
 	}
@@ -82,7 +86,7 @@ func c09Setter(name string, n, pre int) (s stun.Setter, accept bool, classOK fun
 	case "OtherAddress":
 		return &stun.OtherAddress{IP: net.IP(bytesOf(n)), Port: 7}, ipOK, badIP, "ErrBadIPLength"
 	case "MessageIntegrity":
-		return stun.MessageIntegrity(bytesOf(n)), pre != 3, func(err error) bool { return errors.Is(err, stun.ErrFingerprintBeforeIntegrity) }, "ErrFingerprintBeforeIntegrity"
+		return stun.MessageIntegrity(bytesOf(n)), pre != 3 && pre != 5 && pre != 6, func(err error) bool { return errors.Is(err, stun.ErrFingerprintBeforeIntegrity) }, "ErrFingerprintBeforeIntegrity"
 	}
 	panic("c09: unknown setter " + name)
 }
@@ -224,7 +228,7 @@ func init() {
 					c.Sample(k)
 				}
 			}
-			for pre := 0; pre < 5; pre++ {
+			for pre := 0; pre < 7; pre++ {
 				for _, ts := range []struct {
 					name string
 					max  int
